@@ -110,7 +110,8 @@ func ZZVerifC09Corpus() {
 		rt.Assert(len(l) == 0 || tf[tok] != nil, "postings: no token of a removed or overwritten text remains")
 	}
 	// ---- query ----
-	q := []string{"cat", "dog fish", "the", "bird"}[rt.IntRange("query", 0, 3)]
+	// "cat cat dog" repeats a term and "cats cat fish" has two words with one stem: BM25 sums over the analysed query terms as given
+	q := []string{"cat", "dog fish", "the", "bird", "cat cat dog", "cats cat fish"}[rt.IntRange("query", 0, 5)]
 	res, err := db.FindIDsByTextSearch("i", "body", q)
 	rt.Assert(err == nil, "FindIDsByTextSearch succeeds")
 	qt := an.Analyze(q)
